@@ -101,6 +101,12 @@ Definition find_dbref (f : pdbfile) (j : nat) : option dbref :=
 Fixpoint enum_nat {A} (n : nat) (l : list A) : list (nat * A) :=
   match l with [] => [] | x :: r => (n, x) :: enum_nat (S n) r end.
 
+(* the unit cell a SCALE record can be derived from: the reciprocals of its edges are finite *)
+Definition scale_cell (f : pdbfile) : option (list fval) :=
+  match pf_cell f with
+  | Some c => if forallb (fun k => is_finite (fdiv (FFin 1 0) (nth k c (FFin 0 0)))) [0; 1; 2]%nat then Some c else None
+  | None => None
+  end.
 Definition save_pdb (level : Z) (f : pdbfile) : text :=
   let pl := print_line level in
   let idt := otext_or [] (pf_id f) in
@@ -177,7 +183,7 @@ Definition save_pdb (level : Z) (f : pdbfile) : text :=
    match pf_scale f with
    | Some m => matrix_lines level "SCALE" m
    | None => if level =? 0 then
-               match pf_cell f with
+               match scale_cell f with
                | Some c => let inv k := fdiv (FFin 1 0) (nth k c (FFin 0 0)) in let z := FFin 0 0 in
                            matrix_lines level "SCALE" [inv 0%nat; z; z; z; z; inv 1%nat; z; z; z; z; inv 2%nat; z]
                | None => [] end
@@ -198,7 +204,7 @@ Definition save_pdb (level : Z) (f : pdbfile) : text :=
    (if level =? 2 then [] else
       let xform := (if (match pf_origx f with Some _ => true | None => false end || (level =? 0))%bool then 3 else 0) +
                    (if (match pf_scale f with Some _ => true | None => false end ||
-                        ((level =? 0) && match pf_cell f with Some _ => true | None => false end))%bool then 3 else 0) +
+                        ((level =? 0) && match scale_cell f with Some _ => true | None => false end))%bool then 3 else 0) +
                    3 * Z.of_nat (List.length (pf_mtrix f)) in
       let z5 := (5%nat, S_ "0") in
       pl [(0%nat, S_ "MASTER    "); (5%nat, show_int (Z.of_nat (List.length (pf_remarks f)))); z5; z5; z5; z5; z5; z5;
